@@ -147,9 +147,11 @@ class WaveSim(sim.SimOps):
 
         :param time: The transition time at the inputs (usually 0.0).
         """
-        self.s[0, self.ppio_s_locs] = self.s[2, self.ppio_s_locs]
-        self.s[1, self.ppio_s_locs] = time
-        self.s[2, self.ppio_s_locs] = self.s[8, self.ppio_s_locs]
+        locs = self.ppio_s_locs
+        locs = locs[(self.c_locs[self.ppi_offset + locs] >= 0) & (self.c_locs[self.ppo_offset + locs] >= 0)]  # as the GPU kernel
+        self.s[0, locs] = self.s[2, locs]
+        self.s[1, locs] = time
+        self.s[2, locs] = self.s[8, locs]
 
 
 def _wave_eval(op, cbuf, c_locs, c_caps, sim, delays, simctl_int, seed=0):
